@@ -678,6 +678,14 @@ pub fn check(p: &dyn Property, thorough: bool, meta: Meta) -> i32 {
     let wall = t0.elapsed().as_secs_f64();
     let fault_kinds: BTreeMap<&String, &u64> = m.stats.iter().filter(|(k, _)| k.starts_with("fault_")).collect();
     let probes: BTreeMap<&String, &u64> = m.stats.iter().filter(|(k, _)| k.starts_with("probe_")).collect();
+    let assumptions_with_probe: Vec<String> = {
+            let mut a = meta.assumptions.clone();
+            a.push(match std::env::var("MOMSIM_REENTRY").as_deref() {
+                Ok("no") => "re-entrancy probe: a child process making re-entrant calls (a sample call from inside a scalar callback of another) did NOT return within 30 s - the library blocks when re-entered (a lock held across callbacks); re-entrant calls were therefore not made in this check (the two calls ran one after the other)".to_string(),
+                _ => "re-entrancy probe: a child process making re-entrant calls returned; re-entrant calls are part of the scenarios".to_string(),
+            });
+            a
+        };
     let ev = json!({
         "property_id": p.id(),
         "tier": if thorough { "thorough" } else { "quick" },
@@ -708,7 +716,7 @@ pub fn check(p: &dyn Property, thorough: bool, meta: Meta) -> i32 {
             "fixed_entries_in_known_findings": known.fixed.len(),
             "exhaustive": false
         },
-        "assumptions": meta.assumptions,
+        "assumptions": assumptions_with_probe,
         "wall_s": wall,
         "violations": violations,
         "unreproduced_findings": unreproduced
